@@ -9,7 +9,7 @@ From Coq Require Import List String Bool.
 Import ListNotations.
 From DV.gen Require Import Gen_classtab.
 From DV.model Require Import Dispatch.
-From DV.proofs Require Import ClassFacts.
+From DV.proofs Require Import ClassFacts CF_C12.
 Open Scope string_scope.
 
 Theorem C12_target_tables : forallb (fun c => image_only_targets_ok c && dual_targets_ok c) class_table = true.
